@@ -6,8 +6,8 @@ from world import World, W
 from yabgp.message.update import Update
 
 
-def established():
-    w = World({'hold': 0, 'las': 65001, 'ras': 65002})
+def established(extra=None):
+    w = World(dict({'hold': 0, 'las': 65001, 'ras': 65002}, **(extra or {})))
     for ev in [{'k': 'boot'}, {'k': 'connOk', 'c': 1}, {'k': 'msg', 'c': 1, 'm': 'OPEN', 'h': 0}, {'k': 'msg', 'c': 1, 'm': 'KA'}]:
         w.apply(ev)
     o = w.observe()
@@ -15,7 +15,7 @@ def established():
     return w
 
 
-def run_vector(w, i, v):
+def run_vector(w, i, v, asn4=True):
     ref_msg = bytes(v['b'])
     sub = v['sub']
     line = {'id': i, 'kind': 'comm', 'cls': v['u']['name'], 'sub': sub, 'asn4': True, 'ref': list(v['u']['o']), 'refmsg': list(ref_msg),
@@ -48,7 +48,7 @@ def run_vector(w, i, v):
     line['accepted'] = True
     line['bin'] = list(b)
     try:
-        d2 = Update.parse(0, b[19:], True)
+        d2 = Update.parse(0, b[19:], asn4)          # read back in the AS-number width of this session
         line['text2_same'] = (d2['attr'].get(sub) == txt) and not d2.get('sub_error')
         if not line['text2_same']:
             line['diff'] = 're-decoded %r' % (d2['attr'].get(sub),)
@@ -83,8 +83,18 @@ def work(args):
     k, vecs, outdir = args
     import os
     path = os.path.join(outdir, 'comm_%04d.ndjson' % k)
-    w = established()
+    n = 0
     with open(path, 'w') as fh:
-        for i, v in vecs:
-            fh.write(json.dumps(run_vector(w, i, v), separators=(',', ':')) + '\n')
-    return path, len(vecs)
+        # the default session, and one on which only the PEER offered the 4-octet-AS capability (AS numbers travel in two
+        # octets there, but the peer still understands the 4-octet-AS specific communities of RFC 5668)
+        for tag, extra in (('', None), ('@local-as2', {'four_bytes_as': False})):
+            w = established(extra)
+            for i, v in vecs:
+                line = run_vector(w, i, v, asn4=not tag)
+                if tag:
+                    line['id'] = i + 50000000
+                    line['asn4'] = False
+                line['sess'] = tag or 'default'
+                fh.write(json.dumps(line, separators=(',', ':')) + '\n')
+                n += 1
+    return path, n
